@@ -235,6 +235,80 @@ fn search_honest(rng: &mut Rng, budget: usize) -> Option<String> {
 }
 fn rerun_honest(input: &str) -> Option<String> { let t = input.rsplit('|').next().unwrap(); let (a, b) = t.split_once(';').unwrap(); honest_check(a.parse().unwrap(), &de_l(b)) }
 
+// ---------------- C04: single-field alterations of honest proofs ----------------
+/// observations of a replica (info, has/get of every block below `upto`)
+fn observe(c: &mut Hypercore, upto: u64) -> String {
+    let i = c.info();
+    let mut s = format!("{}/{}/{}/{};", i.length, i.byte_length, i.contiguous_length, i.fork);
+    for k in 0..upto + 2 { s.push_str(&format!("{}:{:?};", c.has(k), block_on(c.get(k)).ok().flatten())); }
+    s
+}
+/// alteration `a` of an honest proof (None when it does not apply to this proof)
+fn alter(p: &Proof, a: usize) -> Option<(Proof, &'static str, bool)> {
+    // (altered proof, description, must_be_refused)
+    let mut q = p.clone();
+    match a {
+        0 => { let b = q.block.as_mut()?; if b.value.is_empty() { b.value.push(1); } else { b.value[0] ^= 1; } Some((q, "bit flip / extra byte in the block value", true)) }
+        1 => { let b = q.block.as_mut()?; let n = b.nodes.get_mut(0)?; let mut h = n.hash.clone(); h[5] ^= 0x10; *n = Node::new(n.index, h, n.length); Some((q, "bit flip in a sibling hash of the block section", true)) }
+        2 => { let u = q.upgrade.as_mut()?; let n = u.nodes.get_mut(0)?; let mut h = n.hash.clone(); h[0] ^= 1; *n = Node::new(n.index, h, n.length); Some((q, "bit flip in an upgrade node hash", true)) }
+        3 => { let u = q.upgrade.as_mut()?; if u.signature.is_empty() { return None; } u.signature[7] ^= 4; Some((q, "bit flip in the signature", true)) }
+        4 => { let u = q.upgrade.as_mut()?; u.length += 1; Some((q, "upgrade length + 1", true)) }
+        5 => { let u = q.upgrade.as_mut()?; if u.length < 2 { return None; } u.length -= 1; Some((q, "upgrade length - 1", true)) }
+        6 => { q.fork += 1; Some((q, "fork + 1", true)) }
+        7 => { let b = q.block.as_mut()?; b.index += 1; Some((q, "block index + 1", true)) }
+        8 => { let u = q.upgrade.as_mut()?; let n = u.nodes.get_mut(0)?; *n = Node::new(n.index, n.hash.clone(), n.length + 1); Some((q, "upgrade node size + 1", true)) }
+        9 => { let b = q.block.as_mut()?; let n = b.nodes.get_mut(0)?; *n = Node::new(n.index, n.hash.clone(), n.length + 1); Some((q, "block sibling size + 1", true)) }
+        10 => { let u = q.upgrade.as_mut()?; if u.nodes.is_empty() { return None; } u.nodes.remove(0); Some((q, "upgrade node dropped", true)) }
+        11 => { let b = q.block.as_mut()?; if b.nodes.is_empty() { return None; } b.nodes.remove(0); Some((q, "block sibling dropped", true)) }
+        12 => { let u = q.upgrade.as_mut()?; if u.nodes.len() < 2 { return None; } u.nodes.swap(0, 1); Some((q, "upgrade nodes swapped", true)) }
+        13 => { let u = q.upgrade.as_mut()?; u.start += 1; Some((q, "upgrade start + 1", false)) }
+        14 => { let u = q.upgrade.as_mut()?; let n = u.nodes.first()?.clone(); u.nodes.insert(0, n); Some((q, "upgrade node duplicated", false)) }
+        15 => { q.upgrade.as_ref()?; q.upgrade = None; Some((q, "upgrade section removed", false)) }
+        16 => { let u = q.upgrade.as_mut()?; let other = crate::generate_signing_key(); let _ = other; u.signature = vec![9u8; 64]; Some((q, "signature replaced", true)) }
+        _ => None,
+    }
+}
+fn altered_check(n: usize, have: u64, target: u64, a: usize) -> Option<String> {
+    let r = watch(move || {
+        let mut w = match writer(n) { Ok(w) => w, Err(e) => return Some(format!("setup: {e}")) };
+        let mut rep = match replica() { Ok(r) => r, Err(e) => return Some(format!("setup: {e}")) };
+        if let Err(e) = replicate(&mut w, &mut rep, have) { return Some(format!("setup replication: {e}")); }
+        let nodes = match block_on(rep.missing_nodes(target)) { Ok(x) => x, Err(e) => return Some(format!("missing_nodes: {e}")) };
+        let rl = rep.info().length; let wl = w.info().length;
+        let up = if rl < wl { Some(RequestUpgrade { start: rl, length: wl - rl }) } else { None };
+        let honest = match block_on(w.create_proof(Some(RequestBlock { index: target, nodes }), None, None, up)) { Ok(Some(p)) => p, _ => return None };
+        let (bad, what, must_refuse) = match alter(&honest, a) { Some(x) => x, None => return None };
+        let before = observe(&mut rep, n as u64);
+        let res = block_on(rep.verify_and_apply_proof(&bad));
+        let accepted = matches!(res, Ok(true));
+        if must_refuse && accepted { return Some(format!("altered proof accepted: {what}")); }
+        if !accepted {
+            let after = observe(&mut rep, n as u64);
+            if before != after { return Some(format!("refused proof ({what}) changed the replica: {before} -> {after}")); }
+        }
+        // whatever happened: every held block equals the writer's, and honest replication still completes
+        for k in 0..n as u64 { if rep.has(k) { let g = block_on(rep.get(k)).ok().flatten(); let t = block_on(w.get(k)).ok().flatten(); if g != t { return Some(format!("after {what}: held block {k} differs from the writer's")); } } }
+        if rep.info().length > w.info().length { return Some(format!("after {what}: replica length {} exceeds the writer's {}", rep.info().length, w.info().length)); }
+        for k in 0..n as u64 {
+            if rep.has(k) { continue; }
+            let nodes = match block_on(rep.missing_nodes(k)) { Ok(x) => x, Err(e) => return Some(format!("after {what}: missing_nodes({k}): {e}")) };
+            let rl = rep.info().length; let wl = w.info().length;
+            let up = if rl < wl { Some(RequestUpgrade { start: rl, length: wl - rl }) } else { None };
+            let p = match block_on(w.create_proof(Some(RequestBlock { index: k, nodes }), None, None, up)) { Ok(Some(p)) => p, Ok(None) => continue, Err(e) => return Some(format!("after {what}: honest create_proof({k}): {e}")) };
+            match block_on(rep.verify_and_apply_proof(&p)) { Ok(true) => {}, other => return Some(format!("after {what}: honest proof for block {k} no longer accepted: {:?}", other.map_err(|e| e.to_string()))) }
+        }
+        None
+    });
+    match r { Ok(x) => x, Err(m) => Some(m) }
+}
+fn search_altered(rng: &mut Rng, budget: usize) -> Option<String> {
+    let mut cases: Vec<(usize, u64, u64)> = vec![(1, 0, 0), (2, 0, 1), (3, 1, 2), (5, 2, 4), (8, 3, 6), (8, 8, 3), (10, 4, 9), (13, 5, 12)];
+    for _ in 0..budget.min(30) { let n = 1 + rng.below(20) as usize; let have = rng.below(n as u64 + 1); let t = rng.below(n as u64); cases.push((n, have.min(n as u64), t)); }
+    for (n, have, t) in cases { for a in 0..17 { if let Some(m) = altered_check(n, have, t, a) { return Some(format!("{{\"writer_blocks\":{},\"replica_has_first\":{},\"block\":{},\"alteration\":{},\"why\":\"{}\"}}|{};{};{};{}", n, have, t, a, m, n, have, t, a)); } } }
+    None
+}
+fn rerun_altered(input: &str) -> Option<String> { let f: Vec<u64> = input.rsplit('|').next().unwrap().split(';').map(|x| x.parse().unwrap()).collect(); altered_check(f[0] as usize, f[1], f[2], f[3] as usize) }
+
 pub fn contracts() -> Vec<Contract> {
     vec![
         Contract { name: "proofs.requests_no_panic", covers: &["MerkleTree::create_valueless_proof", "Hypercore::create_proof", "Hypercore::create_valueless_proof", "fn nodes_to_root", "MerkleTree::upgrade_proof",
@@ -249,5 +323,8 @@ pub fn contracts() -> Vec<Contract> {
         Contract { name: "proofs.honest_replication", covers: &["MerkleTree::missing_nodes", "MerkleTree::create_valueless_proof", "MerkleTree::verify_proof", "fn verify_tree", "fn verify_upgrade", "MerkleTree::byte_offset_in_changeset",
             "MerkleTree::commit", "MerkleTreeChangeset::append_root", "MerkleTreeChangeset::append", "MerkleTreeChangeset::hash_and_sign"],
             search: search_honest, rerun: rerun_honest },
+        Contract { name: "proofs.altered_proofs_refused", covers: &["MerkleTree::verify_proof", "fn verify_tree", "fn verify_upgrade", "NodeQueue::shift", "Hypercore::verify_and_apply_proof", "Hypercore::verify_proof",
+            "MerkleTreeChangeset::verify_and_set_signature", "MerkleTreeChangeset::signable", "fn signable_tree", "Hash::parent", "Hash::data", "Hash::tree", "fn block_node", "fn parent_node", "MerkleTree::commit"],
+            search: search_altered, rerun: rerun_altered },
     ]
 }
